@@ -3,6 +3,104 @@ From Coq Require Import ZArith List Bool NArith.
 Import ListNotations.
 Require Import PV.Core.Obj PV.Core.Val PV.Core.Cls PV.Core.Member PV.Core.CanAssignK.
 
+
+(* list / tuple / set / frozenset literals: what replace_known_sequence_value expands *)
+Definition seq_elems (o : obj) : option (list obj) :=
+  match o with
+  | OTuple _ l | OList _ l | OSet _ l | OFrozenset l => Some l
+  | _ => None
+  end.
+
+Definition all_false (fl : list bool) : bool := forallb negb fl.
+
+
+Fixpoint garg_list_eqb (a b : list garg) : bool :=
+  match a, b with
+  | [], [] => true
+  | GArg i :: a', GArg j :: b' => Nat.eqb i j && garg_list_eqb a' b'
+  | GCls c :: a', GCls d :: b' => N.eqb c d && garg_list_eqb a' b'
+  | GAnyv :: a', GAnyv :: b' => garg_list_eqb a' b'
+  | _, _ => false
+  end.
+
+Definition opt_gargs_eqb (x : option (list garg)) (y : option (list garg)) : bool :=
+  match x, y with
+  | None, None => true
+  | Some a, Some b => garg_list_eqb a b
+  | _, _ => false
+  end.
+
+(* the boolean decision procedure for the guard [ok] of C03_known_assign_iff_member_partial
+   (Proofs/C03Okb.v: okb ct T o = true -> ok ct T o) *)
+Section Okb.
+  Context (ct : class_table).
+
+  (* the generic bases of the literal's class are what the spec's kind expects *)
+  Definition elems_table_ok (c d : N) : bool :=
+    (issub ct c d && opt_gargs_eqb (gb_args ct c d) (Some [GArg 0])) ||
+    (negb (issub ct c d) && opt_gargs_eqb (gb_args ct c d) None && negb (nominal ct c d)).
+
+  Fixpoint okb (T : val) (o : obj) {struct T} : bool :=
+    match T with
+    | VLeaf (LTyped d _) => Bool.eqb (nominal ct (class_of o) d) (sub_promo ct (class_of o) d)
+    | VLeaf (LNewType _ d) => if N.eqb (class_of o) d then nominal ct d d else true
+    | VLeaf _ => true
+    | VUnion vs => (fix all (l : list val) : bool := match l with [] => true | t :: r => okb t o && all r end) vs
+    | VNode (TAnnot _) [t] => okb t o
+    | VNode (TSubclass _) [VLeaf (LTyped d _)] =>
+        match o with OClass c' => Bool.eqb (tassign ct c' d) (sub_promo ct c' d) | _ => true end
+    | VNode (TGeneric d) args =>
+        match seq_elems o, o with
+        | Some es, _ =>
+            match gkind_of d, args with
+            | Some GKElems, [X] =>
+                elems_table_ok (class_of o) d && Nat.eqb (length (dedup_lits es)) (length es) && forallb (okb X) es
+            | Some GKMapping, [_; _] =>
+                opt_gargs_eqb (gb_args ct (class_of o) d) None && negb (nominal ct (class_of o) d)
+            | _, _ => false
+            end
+        | None, ODict _ kvs =>
+            match gkind_of d, args with
+            | Some GKMapping, [K; V] =>
+                issub ct c_dict d && opt_gargs_eqb (gb_args ct c_dict d) (Some [GArg 0; GArg 1]) &&
+                Nat.eqb (length (dedup_lits (map fst kvs))) (length kvs) &&
+                Nat.eqb (length (dedup_lits (map snd kvs))) (length kvs) &&
+                forallb (fun kv => okb K (fst kv)) kvs && forallb (fun kv => okb V (snd kv)) kvs
+            | Some GKElems, [X] =>
+                elems_table_ok c_dict d && Nat.eqb (length (dedup_lits (map fst kvs))) (length kvs) &&
+                forallb (fun kv => okb X (fst kv)) kvs
+            | _, _ => false
+            end
+        | None, _ =>
+            match iter_elems o with
+            | None => opt_gargs_eqb (gb_noargs ct (class_of o) d) None && negb (nominal ct (class_of o) d)
+            | Some _ => false     (* str / bytes against a generic: compared by type only *)
+            end
+        end
+    | VNode (TSeq d flags) (_ :: ms) =>
+        N.eqb d c_tuple && all_false flags && Nat.eqb (length flags) (length ms) &&
+        tassign ct c_tuple c_tuple && negb (tassign ct c_list c_tuple) && negb (tassign ct c_set c_tuple) &&
+        match seq_elems o with
+        | Some es =>
+            (fix go (ms : list val) (es : list obj) {struct ms} : bool :=
+               match ms, es with
+               | X :: ms', e :: es' => okb X e && go ms' es'
+               | _, _ => true
+               end) ms es
+        | None => true
+        end
+    | VNode (TTypedDict _ _ _) (_ :: ts) =>
+        match o with
+        | ODict _ kvs =>
+            forallb (fun kv => is_str (fst kv)) kvs &&
+            (fix all (l : list val) : bool :=
+               match l with [] => true | t :: r => forallb (fun kv => okb t (snd kv)) kvs && all r end) ts
+        | _ => true
+        end
+    | _ => false
+    end.
+End Okb.
+
 (* a tuple type with an unpacked member: tuple[int, *tuple[str, ...]] *)
 Fixpoint has_variadic (T : val) : bool :=
   match T with
@@ -58,4 +156,4 @@ Fixpoint dedup_safe (o : obj) : bool :=
 
 Definition c03_run (ct : class_table) (T : val) (o : obj) :=
   (ca ct T o, member ct T o,
-   (has_variadic T, negb (dedup_safe o), obj_has_frozenset o, obj_has_nonstr_key o && has_typeddict T, obj_has_strbytes o)).
+   (has_variadic T, negb (dedup_safe o), obj_has_frozenset o, obj_has_nonstr_key o && has_typeddict T, obj_has_strbytes o, okb ct T o)).
